@@ -16,6 +16,12 @@ CLAIMS = {
             'as C01; references handler glue not covered', '§5-C02'),
     'C04': ('proof', 'find_references_for_definition is proved to return exactly the reverse-index bucket of the definition\'s name filtered by "this usage resolves to the definition" (op_refs), find_fixture_definition (go-to-definition) is proved to resolve the first recorded usage under the cursor with the same resolve_usage function; lemmas: an entry is listed iff it resolves to D, unresolved usages are listed nowhere, one list element per index entry, goto on a usage == resolve_usage of that usage. The mirror between usages and usage_by_fixture is proved per mutator (unit index_maint).',
             'trusted: as C01; wf clause unique_at_line assumed; code-lens / call-hierarchy / CLI counts glue not covered', '§5-C04'),
+    'C16': ('proof', 'detect_scope_mismatches_in_file (after fix 898ebb4) is proved sound AND complete against is_mismatch: a pair (F, D) is reported iff F is the file\'s definition of a listed name, D is the definition the proved resolver selects from F\'s file for one of F\'s dependencies (own name -> overridden parent) and rank(F.scope) > rank(D.scope); the derived ordering of FixtureScope is checked exhaustively by Kani. Cycle detection is not under contract (known finding F-16b).',
+            'trusted: as C01 (resolver contract proved in unit resolver_core); HashSet/DashMap shims; wf_names assumed', '§5-C16'),
+    'C18': ('proof', 'The offered-set algebra of completion is proved exactly: filter_and_enrich_fixtures returns available filtered by !excluded in order, is_fixture_excluded/should_exclude_fixture/fixture_sort_priority equal their specs (self/cls, declared params, current fixture, narrower scope; same-file 0 < project 1 < plugin 2 < third-party 3); lemmas: every name once, excluded never offered. Context classification (where completion is offered) is not covered.',
+            'trusted: extractor incl. //@item, format! builders uninterpreted, derive(PartialOrd) via Kani', '§5-C18'),
+    'C19': ('proof', 'Config::from_raw is proved to keep exactly the valid diagnostic codes and valid glob patterns element-wise (order preserved, other settings passed through) and is_diagnostic_disabled to be membership; lemmas: bad entries are ignored individually, settings are independent. The publish path and TOML parsing are not covered.',
+            'trusted: glob::Pattern::new abstract, slice::contains / String==str / filter_map wrapper assumed', '§5-C19'),
     'C06': ('proof', 'Verus discharges, for all inputs and all loop iterations, exact postconditions (effect + frame) of the index-maintenance functions extracted from /repo (record_*, cleanup_*).',
             'trusted: extractor, sequential view, DashMap/HashSet shims; visitors and parser abstract', '§5-C06'),
 }
